@@ -20,8 +20,10 @@ package main
 //   hostname  the host part of the upstream address (pipe: any; tcp*: localhost | 127.0.0.1; stdin: -)
 //   scert     good | nameonly | wronghost | untrusted | expired (24 h ago) | exp1m | exp1s | notyet | fresh
 //             (the last four: validity period placed relative to the moment of use, see c05_pki.go)
-//   cinsecure 0|1     cca  A|-     sreq 0|1     sca  A|-
-//   ccert     none | good | foreign | expired | exp1m | exp1s | notyet | fresh
+//             | sys (issued by CA S = the system trust store of the harness process, configured nowhere)
+//   cinsecure 0|1     cca  A|B|-     sreq 0|1     sca  A|B|-      (- = no CA configured: crypto/tls falls back to
+//             the system roots, i.e. CA S)
+//   ccert     none | good | foreign (CA B) | expired | exp1m | exp1s | notyet | fresh | sys (CA S)
 // result: established | refused
 
 import (
@@ -215,15 +217,15 @@ type c05Cell struct {
 
 var (
 	c05Carriers = []string{"pipe", "tcp", "tcp+tls", "stdin+tls", "udp", "wss", "ws"}
-	c05SCerts   = []string{"good", "nameonly", "wronghost", "untrusted", "expired", "exp1m", "exp1s", "notyet", "fresh"}
-	c05CCerts   = []string{"none", "good", "foreign", "expired", "exp1m", "exp1s", "notyet", "fresh"}
+	c05SCerts   = []string{"good", "nameonly", "wronghost", "untrusted", "expired", "exp1m", "exp1s", "notyet", "fresh", "sys"}
+	c05CCerts   = []string{"none", "good", "foreign", "expired", "exp1m", "exp1s", "notyet", "fresh", "sys"}
 )
 
 func parseC05Cell(op string) (c05Cell, bool) {
 	t := strings.Fields(op)
 	var c c05Cell
 	if len(t) != 8 || !c05in(c05Carriers, t[0]) || !c05in(c05SCerts, t[2]) || !c05in([]string{"0", "1"}, t[3]) ||
-		!c05in([]string{"A", "-"}, t[4]) || !c05in(c05CCerts, t[5]) || !c05in([]string{"0", "1"}, t[6]) || !c05in([]string{"A", "-"}, t[7]) {
+		!c05in(c05CaTokens, t[4]) || !c05in(c05CCerts, t[5]) || !c05in([]string{"0", "1"}, t[6]) || !c05in(c05CaTokens, t[7]) {
 		return c, false
 	}
 	c = c05Cell{t[0], t[1], t[2], t[3] == "1", t[4], t[5], t[6] == "1", t[7]}
@@ -264,6 +266,8 @@ func c05ServerCertAttrs(kind string) (signer string, names []string, expired boo
 		return "A", []string{"other.test", "10.9.9.9"}, false
 	case "untrusted":
 		return "B", []string{"server.test", "localhost", "127.0.0.1", "::1"}, false
+	case "sys":
+		return "S", []string{"server.test", "localhost", "127.0.0.1", "::1"}, false
 	case "expired", "exp1m", "exp1s", "notyet", "fresh":
 		return "A", []string{"server.test", "localhost", "127.0.0.1", "::1"}, c05outsideValidity(kind)
 	}
@@ -273,15 +277,16 @@ func c05ServerCertAttrs(kind string) (signer string, names []string, expired boo
 func (c c05Cell) serverAcceptable() bool {
 	signer, names, expired := c05ServerCertAttrs(c.scert)
 	part, _, _ := c05HostTok(c.hostname)
-	return c.cca == "A" && signer == "A" && !expired && c05HostAcceptable(names, part)
+	return c05in(c05Anchors(c.cca), signer) && !expired && c05HostAcceptable(names, part)
 }
 
-func (c c05Cell) clientAcceptable() bool { return c05ClientCertAcceptable(c.ccert) && c.sca == "A" }
+func (c c05Cell) clientAcceptable() bool { return c05ClientCertAcceptable(c.ccert, c.sca) }
 
-// client leaves: "foreign" is signed by CA B, every other one by CA A; acceptable = signed by A
-// and inside its validity period at the moment of use
-func c05ClientCertAcceptable(ccert string) bool {
-	return ccert != "none" && ccert != "foreign" && !c05outsideValidity(ccert)
+// client leaves: "foreign" is signed by CA B, "sys" by CA S, every other one by CA A; acceptable = signed by a
+// trust anchor of the server's CA option (the configured CA; the system store when none is configured) and inside
+// its validity period at the moment of use
+func c05ClientCertAcceptable(ccert, sca string) bool {
+	return ccert != "none" && c05in(c05Anchors(sca), c05ClientCertSigner(ccert)) && !c05outsideValidity(ccert)
 }
 
 type authmatrixComp struct{}
@@ -316,13 +321,9 @@ func (authmatrixComp) exec1(op string) (string, string, string, bool) {
 
 	sleaf := p.serverLeaf(cell.scert) // boundary classes: signed now, for this attempt
 	srvCfg := cert.ServerConfig{Config: cert.Config{Certificate: sleaf.certPEM, PrivateKey: sleaf.keyPEM}, RequireClientCert: cell.sreq}
-	if cell.sca == "A" {
-		srvCfg.CaCertificate = p.caPEM["A"]
-	}
+	c05SetCa(&srvCfg.Config, cell.sca)
 	cliCfg := &cert.ClientConfig{InsecureSkipVerify: cell.insecure}
-	if cell.cca == "A" {
-		cliCfg.CaCertificate = p.caPEM["A"]
-	}
+	c05SetCa(&cliCfg.Config, cell.cca)
 	if cell.ccert != "none" {
 		cleaf := p.clientLeaf(cell.ccert)
 		cliCfg.Certificate = cleaf.certPEM
@@ -466,9 +467,9 @@ func (authmatrixComp) exec1(op string) (string, string, string, bool) {
 	mon := ""
 	switch {
 	case r.ok && !cell.insecure && cell.carrier != "stdin+tls" && !cell.serverAcceptable():
-		mon = "client completed a verified session with a server whose certificate is not acceptable"
+		mon = "client completed a verified session with a server whose certificate is not acceptable" + c05AnchorNote("client", cell.cca, func() string { s, _, _ := c05ServerCertAttrs(cell.scert); return s }())
 	case r.ok && cell.sreq && !cell.clientAcceptable():
-		mon = "server requiring client certificates admitted a client without an acceptable certificate"
+		mon = "server requiring client certificates admitted a client without an acceptable certificate" + c05AnchorNote("server", cell.sca, c05ClientCertSigner(cell.ccert))
 	case !r.ok && cell.serverAcceptable() && (!cell.sreq || cell.clientAcceptable()):
 		mon = "client did not complete the session with a correctly certified server"
 	case !r.ok && delivered != 0:
@@ -529,6 +530,41 @@ func c05GenHostForms(tier string, emit func(string)) {
 	}
 }
 
+// c05GenAnchors: which trust anchors a cell's two configuration objects end up with.  Client and server are
+// configured with DIFFERENT CAs (A/B, B/A), the same other CA (B/B) or one of them with none, against server
+// certificates issued by A / B / S and client certificates issued by nobody / A / B / S: a peer is acceptable
+// only by the CA configured on the verifying side - never by the other side's CA, by a CA configured in an
+// earlier cell, or by the system store unless no CA is configured.
+func c05GenAnchors(tier string, carriers [][2]string, emit func(string)) {
+	for _, ch := range carriers {
+		for _, cas := range [][2]string{{"A", "B"}, {"B", "A"}, {"B", "B"}, {"B", "-"}, {"-", "B"}} {
+			for _, sc := range []string{"good", "untrusted", "sys"} {
+				for _, cc := range []string{"none", "good", "foreign", "sys"} {
+					for sreq := 0; sreq < 2; sreq++ {
+						if sreq == 0 && cc != "none" && !(tier == "thorough") {
+							continue // without the requirement the client certificate is not looked at
+						}
+						emit(fmt.Sprintf("%s %s %s 0 %s %s %d %s", ch[0], ch[1], sc, cas[0], cc, sreq, cas[1]))
+					}
+				}
+			}
+		}
+	}
+}
+
+// c05AnchorNote names the anchor a refused-by-the-property peer was certified by (for the monitor's reason)
+func c05AnchorNote(side, caTok, signer string) string {
+	if signer == "" || c05in(c05Anchors(caTok), signer) {
+		return ""
+	}
+	conf := "CA " + caTok
+	if caTok == "-" {
+		conf = "no CA (system store = CA S)"
+	}
+	what := map[string]string{"S": "CA S, which is only in the system trust store and configured nowhere", "A": "CA A", "B": "CA B"}[signer]
+	return fmt.Sprintf(" [the peer's certificate was issued by %s; the %s is configured with %s]", what, side, conf)
+}
+
 func (authmatrixComp) Gen(r *Rand, tier string, emit func(string)) {
 	defer func() {
 		if c05pki != nil {
@@ -536,6 +572,11 @@ func (authmatrixComp) Gen(r *Rand, tier string, emit func(string)) {
 		}
 	}()
 	c05GenHostForms(tier, emit)
+	anchorCarriers := [][2]string{{"pipe", "server.test"}, {"tcp", "localhost"}, {"tcp+tls", "127.0.0.1"}, {"stdin+tls", "-"}}
+	if tier == "thorough" {
+		anchorCarriers = append(anchorCarriers, [2]string{"udp", "127.0.0.1"}, [2]string{"wss", "localhost"}, [2]string{"ws", "localhost"})
+	}
+	c05GenAnchors(tier, anchorCarriers, emit)
 	b := func(v int) string { return fmt.Sprintf("%d", v) }
 	type ch struct {
 		carrier string
@@ -556,7 +597,10 @@ func (authmatrixComp) Gen(r *Rand, tier string, emit func(string)) {
 								for _, sca := range []string{"A", "-"} {
 									// quick tier: the full matrix with the CAs configured, the CA-absent
 									// variants on a fixed quarter chosen from the seed
-									if tier != "thorough" && (cca == "-" || sca == "-") && r.Intn(4) != 0 {
+									// (the draw is made for every cell so that the sample does not depend on the
+									// classes; cells with a peer certified by the system CA S are always kept:
+									// "no CA configured" is where S is the legitimate anchor)
+									if tier != "thorough" && (cca == "-" || sca == "-") && r.Intn(4) != 0 && sc != "sys" && cc != "sys" {
 										continue
 									}
 									if (c.carrier == "udp" || c.carrier == "ws") && (cca == "-" || sca == "-") {
